@@ -47,6 +47,7 @@ def check(P: Project, R: Report) -> None:
     R.rule("R2", "constraint parity: Field(ge/le/gt/lt/min_length/max_length/pattern) constraints are enforced by Pydantic only unless the fallback validator reads them")
     R.rule("R3", "union variants: under the fallback's acceptance relation (derived from its validator: ordered attempts, required fields, Literal tags only if it has a Literal case) no earlier member of a union of model classes accepts a wire object that is valid for a later member")
     R.rule("R4", "requiredness parity: no field is Optional[...] without a default (required-but-nullable in Pydantic, optional in the fallback)")
+    R.rule("R6", "inherited fields: if the fallback validates only a class's own annotations (derived from its source), no protocol model may inherit a typed field from another model class")
     R.rule("R5", "Union[int, str] keeps the JSON type in the fallback: an exact-type pass precedes the ordered coercing attempts, and stripping None from Optional[Union[...]] keeps all remaining members")
     T = ModelTable(P)
     R.need(len(T.models) >= 50, f"model table has only {len(T.models)} classes (65 confirmed by hand)")
@@ -143,6 +144,28 @@ def check(P: Project, R: Report) -> None:
     R.ob("R4", "every Optional field of a protocol model has a default", True, "", f"{sum(len(m.own_fields) for m in traffic.values())} fields examined")
     R.ob("R2", "constraint keywords the fallback enforces were derived from its source", True, base_rel, f"fallback reads Field.kwargs: {reads_constraints}; keywords: {sorted(enforced)}")
     R.extra["validating_hooks"] = n_hooks
+
+    # ------------------------------------------------------------------ R6: inherited fields
+    vt = fb_methods.get("_validate_types")
+    R.need(vt is not None, "anchor: fallback _validate_types not found")
+    iter_src = None
+    for n in walk_local(vt):
+        if isinstance(n, ast.For) and isinstance(n.iter, ast.Call) and call_name(n.iter).endswith(".items") and any(isinstance(c, ast.Call) and call_name(c) == "_deep_validate" for c in walk_local(n)):
+            base = ast.unparse(n.iter.func.value)
+            defs_ = [s_ for s_ in walk_local(vt) if isinstance(s_, ast.Assign) and ast.unparse(s_.targets[0]) == base]
+            iter_src = ast.unparse(defs_[-1].value) if defs_ else base
+    R.need(iter_src is not None, "anchor: the fallback's per-field validation loop was not found")
+    own_only = "__annotations__" in iter_src and "get_type_hints" not in iter_src
+    R.extra["fallback_validates_fields_from"] = iter_src
+    n_inh = 0
+    for q, m in sorted(traffic.items()):
+        inherited = {n_: f for n_, f in m.fields.items() if n_ not in m.own_fields}
+        for n_, f in sorted(inherited.items()):
+            trivial = f.ann_text in ("Any", "Optional[Any]")
+            n_inh += 1
+            R.ob("R6", f"{m.name}.{n_} (inherited from {f.owner.split(':')[1]}) is validated by both backends", trivial or not own_only, f"{m.ci.module.rel}:{m.ci.node.lineno}",
+                 f"the fallback validates `{iter_src}` — a class's own annotations only — so the inherited field `{n_}: {f.ann_text}` is typed and validated under Pydantic and left a raw value under the fallback")
+    R.ob("R6", "which annotations the fallback validates was derived from its source", True, f"{base_rel}:{vt.lineno}", f"{iter_src}; {n_inh} inherited fields on protocol models today")
 
     # ------------------------------------------------------------------ R3
     def required_fields(mi: ModelInfo) -> Dict[str, FieldInfo]:
